@@ -57,6 +57,12 @@ def run(spec):
     corpus = sorted(glob.glob(os.path.join(corpus_dir, '*.case')))
     if replay:
         txt = open(replay).read()
+        try:  # replay files written by this check are JSON with the case text under 'case'
+            j = json.loads(txt)
+            if isinstance(j, dict) and 'case' in j:
+                txt = j['case']
+        except ValueError:
+            pass
         m = re.search(r'(case .*?endcase)', txt, flags=re.S)
         cases = [m.group(1) if m else txt]
     else:
